@@ -1182,6 +1182,29 @@ class IdFields(Family):
         ]
 
 
+class Dtd(Family):
+    """Documents with a DOCTYPE, processed through defused resources (used by the C18 'defused' programs only)."""
+    name = 'dtd'
+    versions = ('1.0',)
+    defused = True
+
+    def sources(self, version):
+        return {'dtd.xsd': f'''<xs:schema {XS}>
+ <xs:element name="doc"><xs:complexType><xs:sequence>
+   <xs:element name="p" type="xs:string" maxOccurs="unbounded"/></xs:sequence></xs:complexType></xs:element>
+</xs:schema>'''}
+
+    def docs(self, rng):
+        return [
+            Doc('dtd-plain', _decl() + '<doc><p>a</p><p>b</p></doc>'),
+            Doc('dtd-benign-doctype', _decl() + '<!DOCTYPE doc [<!ELEMENT note ANY>]>\n<doc><p>a</p></doc>'),
+            Doc('dtd-entity', _decl() + '<!DOCTYPE doc [<!ENTITY x "expanded">]>\n<doc><p>&x;</p><p>b</p></doc>'),
+            Doc('dtd-entity-unused', _decl() + '<!DOCTYPE doc [<!ENTITY x "expanded">]>\n<doc><p>c</p></doc>'),
+            Doc('dtd-bad', _decl() + '<doc><q/></doc>', 'fault:structure'),
+            Doc('dtd-big', _decl() + '<doc>' + '<p>text text text</p>' * 40 + '</doc>'),
+        ]
+
+
 class Big(Family):
     """Width-parameterised documents that cross the 16 KiB read size of iterparse."""
     name = 'big'
@@ -1255,4 +1278,4 @@ def with_double_faults(docs, rng, n=4):
 
 
 FAMILIES = {f.name: f for f in (Ids(), Keys(), XsiType(), Subst(), Fixed(), Wild(), Ns(), Mixed(),
-                                Assert11(), Recur(), Multi(), Multi2(), Shadow(), IdFields(), Big())}
+                                Assert11(), Recur(), Multi(), Multi2(), Shadow(), IdFields(), Dtd(), Big())}
